@@ -79,6 +79,13 @@ def _roles(repo, fit: FunctionInfo, task: FunctionInfo, site) -> Dict[str, Optio
                     roles["est"] = prm
                     continue
             roles["index"] = prm
+    # a closure may read fit's X, y, sample_weight as free variables instead of receiving them
+    if getattr(task, "parent", None) is fit:
+        loaded = {n.id for n in ast.walk(task.node) if isinstance(n, ast.Name) and isinstance(n.ctx, ast.Load)}
+        stored = {n.id for n in ast.walk(task.node) if isinstance(n, ast.Name) and isinstance(n.ctx, ast.Store)}
+        for nm, key in ((fX, "X"), (fy, "y"), (fsw, "sw")):
+            if roles[key] is None and nm not in task.named_params and nm in loaded and nm not in stored:
+                roles[key] = nm
     return roles
 
 
@@ -185,11 +192,17 @@ def check_b(ck, repo):
                 E = it_.args[pos[0]].id
                 zipped = True
         idx_ok = zipped or (roles.get("index") is None) or bs.get(roles["index"]) == lv
-        ok = idx_ok and E is not None and bs.get(pX) == fit.named_params[1] and bs.get(py_) == fit.named_params[2] and bs.get(psw) == fit.named_params[3] and roles.get("alpha") is not None and ex.text(b[roles["alpha"]], fit, stmt_of(c)) == "self.alpha"
+        def _same(prm_, fname_):
+            # bound at the call, or read by the closure as fit's own variable
+            return bs.get(prm_) == fname_ or (prm_ == fname_ and prm_ not in task.named_params)
+
+        ok = idx_ok and E is not None and _same(pX, fit.named_params[1]) and _same(py_, fit.named_params[2]) and _same(psw, fit.named_params[3]) and roles.get("alpha") is not None and ex.text(b[roles["alpha"]], fit, stmt_of(c)) == "self.alpha"
         # the rows the tasks resample are the caller's: every row stays eligible
         n_before = len(ck.obs)
         for prm_, fname in ((pX, fit.named_params[1]), (py_, fit.named_params[2]), (psw, fit.named_params[3])):
             a_ = b.get(prm_)
+            if a_ is None and prm_ == fname and prm_ not in task.named_params:
+                a_ = ast.Name(id=fname, ctx=ast.Load())  # read by the closure as fit's own variable
             if a_ is None:
                 continue
             alts_ = list(guarded_values(repo, fit, a_, stmt_of(c))) or [(frozenset(), a_, None)]
@@ -327,9 +340,17 @@ def check_b(ck, repo):
         ok_p = False
         if rt in (f"numpy.sort({P}, axis=1)", f"numpy.sort({P})", f"numpy.sort({P}, axis=-1)") and not st:
             ok_p = True
+        elif rt == P and not st and any(truth_of(p.conds, t) is True for t in (f"{P}.shape[0] == 0", f"0 == {P}.shape[0]", f"len({P}) == 0")):
+            ok_p = True  # empty batch: nothing to sort
         elif rt == P and not st and not loops:
             ip = [_t(c_) for c_ in p.calls if isinstance(c_.func, ast.Attribute) and c_.func.attr == "sort"]
             ok_p = ip in ([f"{P}.sort(axis=1)"], [f"{P}.sort()"], [f"{P}.sort(axis=-1)"], [f"{P}.sort(1)"])
+        elif not st and re.match(r"^numpy\.(vstack|array|stack)\(\[numpy\.sort\(", rt.replace(" ", "")) is not None:
+            # the sorted rows stacked again: [numpy.sort(P[i, :]) for i in range(P.shape[0])]
+            m2 = re.match(r"^numpy\.(?:vstack|array|stack)\(\[numpy\.sort\((.+)\[(\w+)(?:,:)?\]\)for(\w+)inrange\((.+)\.shape\[0\]\)\]\)$", rt.replace(" ", ""))
+            ok_p = m2 is not None and m2.group(1) == P.replace(" ", "") and m2.group(2) == m2.group(3) and m2.group(4) == P.replace(" ", "")
+        elif rt == P and not st and any(truth_of(p.conds, t) is True for t in (f"{P}.shape[0] == 0", f"0 == {P}.shape[0]", f"len({P}) == 0")):
+            ok_p = True  # empty batch: nothing to sort
         elif rt == P and not st and loops:
             # an exit before the loop: only where every row has at most one element
             ok_p = any(truth_of(p.conds, t) is True for t in (f"{P}.shape[1] <= 1", f"{P}.shape[1] < 2", f"{P}.shape[1] == 0")) or any(truth_of(p.conds, t) is False for t in (f"{P}.shape[1] > 1", f"1 < {P}.shape[1]", f"{P}.shape[1] >= 2"))
@@ -348,7 +369,11 @@ def check_b(ck, repo):
                     # for row in preds: row[:] = numpy.sort(row)  (rows of a 2-d array are views)
                     ok_p = st == {f"{iv}[:]": f"numpy.sort({iv})"}
         oks = oks and ok_p
-    ck.verdict(oks, "C17.b", ps, "every row of predict_all(X) sorted ascending", "each row of the same matrix sorted ascending", "predict_sorted is not the row-wise ascending sort of predict_all(X)")
+    fam = all(p.ret_text().replace(" ", "").startswith(("numpy.sort(", "numpy.vstack(", "numpy.array(", "numpy.stack(")) or p.ret_text() == P for p in pps)
+    if not oks and not fam:
+        ck.unknown("C17.b", ps, "every row of predict_all(X) sorted ascending", f"predict_sorted returns {[p.ret_text()[:50] for p in pps][:2]}: not one of the spellings of a row-wise sort this rule reads")
+    else:
+      ck.verdict(oks, "C17.b", ps, "every row of predict_all(X) sorted ascending", "each row of the same matrix sorted ascending", "predict_sorted is not the row-wise ascending sort of predict_all(X)")
 
 
 def run(ck):
